@@ -610,36 +610,39 @@ fn build_filter(lhs: &AstNode, rhs: &AstNode) -> Result<Evaluator> {
 
 ///
 fn build_for(lhs: &AstNode, rhs: &AstNode) -> Result<Evaluator> {
+  /// Domain of an iteration variable: a list (or single value) or a range between two numbers.
+  enum IterationDomain {
+    Single(Evaluator),
+    Range(Evaluator, Evaluator),
+  }
   let rhe = build_evaluator(rhs)?;
-  let mut evaluators_single = vec![];
-  let mut evaluators_range = vec![];
+  // iteration contexts are kept in the order they were written: the first variable changes slowest
+  let mut iteration_contexts = vec![];
   if let AstNode::IterationContexts(items) = lhs {
     for item in items {
       if let AstNode::IterationContextSingle(variable_name, expr_node) = item {
         if let AstNode::Name(name) = variable_name.borrow() {
           let evaluator_single = build_evaluator(expr_node)?;
-          evaluators_single.push((name.clone(), evaluator_single));
+          iteration_contexts.push((name.clone(), IterationDomain::Single(evaluator_single)));
         }
       }
       if let AstNode::IterationContextRange(variable_name, range_start_node, range_end_node) = item {
         if let AstNode::Name(name) = variable_name.borrow() {
           let evaluator_range_start = build_evaluator(range_start_node)?;
           let evaluator_range_end = build_evaluator(range_end_node)?;
-          evaluators_range.push((name.clone(), evaluator_range_start, evaluator_range_end));
+          iteration_contexts.push((name.clone(), IterationDomain::Range(evaluator_range_start, evaluator_range_end)));
         }
       }
     }
   }
   Ok(Box::new(move |scope: &Scope| {
     let mut expression_evaluator = ForExpressionEvaluator::new();
-    if !evaluators_single.is_empty() {
-      for (name, evaluator_single) in &evaluators_single {
-        expression_evaluator.add_single(name.clone(), evaluator_single(scope));
-      }
-    }
-    if !evaluators_range.is_empty() {
-      for (name, evaluator_range_start, evaluator_range_end) in &evaluators_range {
-        expression_evaluator.add_range(name.clone(), evaluator_range_start(scope), evaluator_range_end(scope));
+    for (name, domain) in &iteration_contexts {
+      match domain {
+        IterationDomain::Single(evaluator_single) => expression_evaluator.add_single(name.clone(), evaluator_single(scope)),
+        IterationDomain::Range(evaluator_range_start, evaluator_range_end) => {
+          expression_evaluator.add_range(name.clone(), evaluator_range_start(scope), evaluator_range_end(scope))
+        }
       }
     }
     Value::List(expression_evaluator.evaluate(scope, &rhe))
